@@ -22,7 +22,7 @@ TResid == At("Resid") /\ Step /\ PResid(Ev.a, Ev.j, Ev.col, Ev.against, Ev.resid
 TTab == At("Tab") /\ Step /\ PTab(Ev.n, Ev.ny, Ev.nlv, Ev.y, Ev.rec, Ev.res)
 TEnd == At("End") /\ Step /\ PEnd(Ev.lvs, Ev.cols, Ev.full, Ev.xfull)
 TRss == At("Rss") /\ Step /\ PRss(Ev.a, Ev.j, Ev.rss, Ev.r2gap)
-TOls == At("Ols") /\ Step /\ POls(Ev.j, Ev.rssOls, Ev.err, Ev.full)
+TOls == At("Ols") /\ Step /\ POls(Ev.j, Ev.rssPls, Ev.rssOls, Ev.err, Ev.full)
 TBeta == At("Beta") /\ Step /\ PBeta(Ev.a, Ev.errTrain, Ev.errNew)
 TStat == At("Stat") /\ Step /\ PStat(Ev.a, Ev.j, Ev.r2gap, Ev.rmsegap)
 TAffine == At("Affine") /\ Step /\ PAffine(Ev.c, Ev.d, Ev.errTrain, Ev.errNew)
